@@ -248,7 +248,20 @@ func finalSessions(w *World, x *vrt.Exec) {
 	defer w.mu.Unlock()
 	// 1. once the relay behaves, both sides get a fresh working connection
 	settled := w.faults == 0 || w.endAt >= w.lastFault+100*time.Second
-	if settled && w.faults > 0 {
+	doneC, doneS := 0, 0
+	for _, s := range w.sessC {
+		if s.Success {
+			doneC++
+		}
+	}
+	for _, s := range w.sessS {
+		if s.Success {
+			doneS++
+		}
+	}
+	// (when both sides had already completed all their sessions nothing
+	// needs to reconnect any more)
+	if settled && w.faults > 0 && (doneC < w.sc.Rounds || doneS < w.sc.Rounds) {
 		for _, side := range []struct {
 			name string
 			list []*Session
